@@ -1,5 +1,5 @@
 import ILV.Drv.C01
-import ILV.Model.SipHash
+import ILV.Model.SipHashTuple
 namespace ILV.Drv.C03
 open ILV ILV.DL ILV.Engine ILV.Drv.C01
 
